@@ -49,6 +49,20 @@ m("C19-shr-guard-1000", GR, "    match b.cmp(&Fr::from(254u64)) {", "    match b
 m("C19-benign-shr-guard-256", GR, "    match b.cmp(&Fr::from(254u64)) {", "    match b.cmp(&Fr::from(256u64)) {", "C19")
 m("C19-neg-unguarded", GR, "                if a.is_zero() {\n                    Fr::zero()\n                } else {\n                    let mut x = Fr::MODULUS;\n                    x.sub_with_borrow(&a.into_bigint());\n                    Fr::from_bigint(x).unwrap()\n                }", "                let mut x = Fr::MODULUS;\n                x.sub_with_borrow(&a.into_bigint());\n                Fr::from_bigint(x).unwrap()", "C19")
 
+PMA = "rln/src/pm_tree_adapter.rs"
+SLED = "utils/src/pm_tree/sled_adapter.rs"
+# ---- C16
+m("C16-metadata-put-dropped", PMA, "        self.tree.db.put(METADATA_KEY, metadata.to_vec())?;", "        let _ = self.tree.db.put(METADATA_KEY, metadata.to_vec());", "C16")
+m("C16-close-flush-unchecked", SLED, "                \"Cannot flush database\".to_string(),\n            ))\n        })?;", "                \"Cannot flush database\".to_string(),\n            ))\n        });", "C16")
+m("C16-put-err-ok", SLED, "            Ok(_) => Ok(()),\n            Err(_e) => Err(PmtreeErrorKind::TreeError(TreeErrorKind::InvalidKey)),", "            Ok(_) => Ok(()),\n            Err(_e) => Ok(()),", "C16")
+m("C16-batch-ok", SLED, "            .map_err(|_| PmtreeErrorKind::TreeError(TreeErrorKind::InvalidKey))?;\n        Ok(())", "            .ok();\n        Ok(())", "C16")
+m("C16-config-keys-swapped", PMA, "        let temporary = config[\"temporary\"].as_bool();", "        let temporary = config[\"use_compression\"].as_bool();", "C16")
+m("C16-mode-lowspace", PMA, "            Some(\"LowSpace\") => Mode::LowSpace,", "            Some(\"LowSpace\") => Mode::HighThroughput,", "C16")
+m("C16-flush-noop", PUB, "    pub fn flush(&mut self) -> Result<()> {\n        self.tree.close_db_connection()", "    pub fn flush(&mut self) -> Result<()> {\n        let _ = &self.tree;\n        Ok(())", "C16")
+m("C16-create-default-config", PMA, "            Err(_) => pmtree::MerkleTree::new(depth, config.0)?,", "            Err(_) => pmtree::MerkleTree::new(depth, PmtreeConfig::default().0)?,", "C16")
+m("C16-load-unrecovered", SLED, "        if !db.was_recovered() {", "        if false && !db.was_recovered() {", "C16")
+m("C16-delete-err-swallowed", PMA, "        self.tree\n            .delete(index)\n            .map_err(|e| Report::msg(e.to_string()))?;", "        self.tree\n            .delete(index)\n            .map_err(|e| Report::msg(e.to_string()))\n            .unwrap_or_default();", "C16")
+
 
 def main():
     os.makedirs(OUT, exist_ok=True)
